@@ -1,4 +1,167 @@
+"""C20, first sentence: every declared cargo feature combination of every workspace crate builds.
+
+The lattice is read from the manifests at run time (cargo metadata), every distinct effective feature
+set is enumerated (exhaustive), and each point is `cargo check`ed in a scratch target directory.
+"""
+import concurrent.futures as cf
+import itertools
+import json
+import os
+import re
+import subprocess
+import time
+
+REPO = "/repo"
+ROOT = os.path.dirname(os.path.dirname(os.path.abspath(__file__)))
+TDIR = os.path.join(ROOT, "target", "c20")
+REPLAYS = os.path.join(ROOT, "replays")
+
+
+def _env():
+    e = dict(os.environ)
+    e["CARGO_NET_OFFLINE"] = "true"
+    # the repository's own .cargo/config.toml supplies the rustflags it needs
+    e.pop("RUSTFLAGS", None)
+    e.pop("CARGO_TARGET_DIR", None)
+    return e
+
+
+def metadata():
+    p = subprocess.run(["cargo", "metadata", "--offline", "--no-deps", "--format-version", "1"], cwd=REPO, env=_env(),
+                       stdout=subprocess.PIPE, stderr=subprocess.PIPE, text=True)
+    if p.returncode != 0:
+        raise RuntimeError("cargo metadata failed: " + p.stderr[-500:])
+    return json.loads(p.stdout)["packages"]
+
+
+def closure(feats, table):
+    """Effective set of the crate's own features after expanding feature -> feature edges."""
+    out = set()
+    todo = list(feats)
+    while todo:
+        f = todo.pop()
+        if f in out or f not in table:
+            continue
+        out.add(f)
+        for d in table[f]:
+            if d.startswith("dep:") or "/" in d:
+                continue
+            todo.append(d)
+    return out
+
+
+def lattice(pkg):
+    """All distinct effective feature sets: (requested minimal set, effective set)."""
+    table = pkg["features"]
+    names = sorted(f for f in table if f != "default")
+    seen = {}
+    for r in range(len(names) + 1):
+        for combo in itertools.combinations(names, r):
+            eff = frozenset(closure(combo, table))
+            if eff not in seen:
+                seen[eff] = list(combo)
+    return [(req, sorted(eff)) for eff, req in sorted(seen.items(), key=lambda kv: (len(kv[0]), sorted(kv[0])))]
+
+
+def check_point(crate, req, default=False):
+    tdir = os.path.join(TDIR, crate)
+    cmd = ["cargo", "check", "--offline", "-p", crate, "--target-dir", tdir, "--message-format", "short"]
+    if not default:
+        cmd += ["--no-default-features"]
+        if req:
+            cmd += ["--features", ",".join(req)]
+    t0 = time.time()
+    try:
+        p = subprocess.run(cmd, cwd=REPO, env=_env(), stdout=subprocess.PIPE, stderr=subprocess.STDOUT, text=True, timeout=1200)
+        rc, log = p.returncode, p.stdout
+    except subprocess.TimeoutExpired:
+        rc, log = -999, "timeout"
+    errs = [l for l in log.splitlines() if re.search(r"\berror(\[E\d+\])?:", l) or l.startswith("error")]
+    return {"crate": crate, "requested": req, "default": default, "ok": rc == 0, "rc": rc, "errors": errs[:12], "wall_s": round(time.time() - t0, 2),
+            "cmd": " ".join(cmd)}
+
+
+def crate_points(pkg):
+    pts = [(pkg["name"], req, eff, False) for req, eff in lattice(pkg)]
+    pts.append((pkg["name"], None, ["<defaults>"], True))
+    return pts
+
+
+def sig_for(crate, eff, default):
+    return "C20:build-fail:%s:%s" % (crate, "defaults" if default else ("+".join(eff) if eff else "none"))
+
+
+def run_crate(pkg):
+    out = []
+    for crate, req, eff, default in crate_points(pkg):
+        r = check_point(crate, req or [], default)
+        r["effective"] = eff
+        r["sig"] = sig_for(crate, eff, default)
+        out.append(r)
+    return out
+
+
+def driver_part(tier, seed, known_sigs):
+    t0 = time.time()
+    os.makedirs(TDIR, exist_ok=True)
+    res = {"evaluations": 0, "distinct_nontrivial": 0, "samples": [], "classes": {}, "violations": [], "inconclusive": [], "known_hits": [],
+           "exhaustive_dimensions": [], "notes": []}
+    try:
+        pkgs = metadata()
+    except Exception as e:
+        res["inconclusive"].append(str(e))
+        return res
+    allr = []
+    with cf.ThreadPoolExecutor(max_workers=9) as ex:
+        for rs in ex.map(run_crate, pkgs):
+            allr += rs
+    n_points = 0
+    for r in allr:
+        n_points += 1
+        res["evaluations"] += 1
+        key = "built" if r["ok"] else "failed"
+        res["classes"]["feature set %s" % key] = res["classes"].get("feature set %s" % key, 0) + 1
+        res["classes"]["crate %s: %s" % (r["crate"], key)] = res["classes"].get("crate %s: %s" % (r["crate"], key), 0) + 1
+        if not r["default"]:
+            res["distinct_nontrivial"] += 1
+        if r["rc"] == -999:
+            res["inconclusive"].append("cargo check timed out: %s" % r["cmd"])
+            continue
+        if not r["ok"]:
+            if r["sig"] in known_sigs:
+                res["known_hits"].append(r["sig"])
+                res["classes"]["excluded-known"] = res["classes"].get("excluded-known", 0) + 1
+                continue
+            os.makedirs(REPLAYS, exist_ok=True)
+            fname = os.path.join(REPLAYS, "C20-%s.json" % re.sub(r"[^A-Za-z0-9_+-]", "_", r["sig"][4:]))
+            json.dump({"property": "C20", "kind": "c20", "crate": r["crate"], "requested": r["requested"], "default": r["default"],
+                       "sig": r["sig"], "errors": r["errors"], "cmd": r["cmd"]}, open(fname, "w"), indent=1)
+            res["violations"].append({"sig": r["sig"], "detail": "%s fails: %s" % (r["cmd"], "; ".join(r["errors"][:3])), "replay": fname,
+                                      "config": "cargo check", "level": "-"})
+    # samples: a few points written out
+    for r in allr[:3] + [x for x in allr if not x["ok"]][:3] + allr[-2:]:
+        res["samples"].append({"sub": "feature-lattice", "crate": r["crate"], "requested_features": r["requested"], "effective_features": r["effective"],
+                               "default_features": r["default"], "built": r["ok"], "wall_s": r["wall_s"]})
+    res["exhaustive_dimensions"].append("C20: all %d distinct effective feature sets of the %d workspace crates (+ defaults), read from cargo metadata" % (
+        n_points - len(pkgs), len(pkgs)))
+    res["notes"].append("feature lattice checked with `cargo check --offline -p <crate> --no-default-features --features <set>` in /repo (guard off, "
+                        "the repository's own .cargo/config.toml), %.0fs" % (time.time() - t0))
+    return res
+
+
 def warm():
-    pass
+    try:
+        driver_part("quick", 0, [])
+    except Exception:
+        pass
+
+
 def replay(rj):
-    return 2
+    r = check_point(rj["crate"], rj.get("requested") or [], rj.get("default", False))
+    print("replay C20: %s -> %s" % (r["cmd"], "builds" if r["ok"] else "FAILS"))
+    for e in r["errors"]:
+        print("  " + e)
+    if not r["ok"]:
+        print("VIOLATION property=C20 replay=%s" % "-")
+        return 1
+    return 0
